@@ -10,6 +10,7 @@ import dfdrv as dd
 from dfdrv import DIMPOOL, fl_dims_t
 
 ID = "C11"
+THOROUGH_ROUNDS = 2      # rounds of generate() in the thorough tier (new random draws each round)
 COQ_MODULE = "Corr.DFC"
 SHARD = 150
 RULE = ("dimension sets of 1-3 (thorough: 4) dimensions with int-typed, str-typed and untyped (str / int) items and single-item "
